@@ -32,6 +32,7 @@ func loadWorld(repo string) (*World, error) {
 	}
 	prog, spkgs := ssautil.AllPackages(pkgs, ssa.GlobalDebug)
 	prog.Build()
+	thePkgPath = spkgs[0].Pkg.Path()
 	w := &World{
 		prog: prog, pkg: spkgs[0],
 		structSorts: map[string]*types.Struct{}, structNamed: map[string]types.Type{},
@@ -40,6 +41,15 @@ func loadWorld(repo string) (*World, error) {
 		globals: map[*ssa.Global]string{}, funcByName: map[string]*ssa.Function{},
 	}
 	w.strConst("")
+	w.heap("M_val", "(Array Int (Array Str Val))")
+	w.heap("M_dom", "(Array Int (Array Str Bool))")
+	w.heap("M_len", "(Array Int Int)")
+	w.heap("A_Val", "(Array Int (Array Int Val))")
+	w.heap("A_Str", "(Array Int (Array Int Str))")
+	w.heap("A_Int", "(Array Int (Array Int Int))")
+	for _, g := range []string{"G_mine", "G_held", "G_esc"} {
+		w.ghostHeap(g)
+	}
 	cs, err := loadContracts(filepath.Join(repo, "zz_verif_contracts.go"))
 	if err != nil {
 		return nil, err
@@ -322,7 +332,7 @@ func (w *World) lemmaObligations(opts *Options, wantProps map[string]bool, re *r
 			}
 		}
 		ex := &Exec{w: w, kindN: map[string]int{}, opts: opts}
-		ex.entry = &State{vals: map[ssa.Value]SVal{}, heaps: map[string]string{}, inLoop: map[*ssa.BasicBlock]bool{}}
+		ex.entry = &State{vals: map[ssa.Value]SVal{}, heaps: map[string]string{}, heapAlloc: map[string]string{}, inLoop: map[*ssa.BasicBlock]bool{}}
 		ex.entry.alloc = ex.fresh("alloc0", "Int")
 		ctx := &EvalCtx{ex: ex, st: ex.entry, old: ex.entry, env: map[string]CV{}}
 		t, err := ctx.evalBool(lm.E)
